@@ -28,7 +28,7 @@ EXPLANATION = (
 ASSUMPTIONS = ["CPython ast parses /repo's source as the interpreter would",
                "constraint file formats (set_io / LOCATE COMP / ldc_set_location / IO_LOC; set_frequency MHz, FREQUENCY Hz, "
                "create_clock -period ns) frozen in sa/rules/c19.py"]
-MIN_INSTANCES = {"R-19e": 11, "R-19a": 1, "R-19b": 3, "R-19c": 5, "R-19d": 10}
+MIN_INSTANCES = {"R-19g": 1, "R-19f": 1, "R-19e": 11, "R-19a": 1, "R-19b": 3, "R-19c": 5, "R-19d": 10}
 
 STATE_ATTRS = {"_phys_reqd", "_pins", "_io_clocks", "_clocks", "_requested"}
 MUT_CALLS = {"append", "add", "update", "pop", "clear", "setdefault", "extend", "insert", "remove", "popitem"}
@@ -529,4 +529,55 @@ def r19e(model, ctx):
     need(n_sig >= 7, f"only {n_sig} signal clock template loops found")
 
 
-RULES = [("R-19e", r19e), ("R-19a", r19a), ("R-19b", r19b), ("R-19c", r19c), ("R-19d", r19d)]
+def r19f(model, ctx):
+    """Connector: the parent-connector prefix (`conn=`) is applied to every pin of the mapping whatever form the I/O list was
+    given in (dictionary or string): chained connectors resolve through it"""
+    from ..engine.astutil import parent_map, dominating_conditions
+    R = "R-19f"
+    f = model.func(f"{DSLB}::Connector.__init__")
+    pm = parent_map(f)
+    pref = []
+    for n in ast.walk(f):
+        if isinstance(n, ast.JoinedStr) and "conn_name" in unparse(n) and "conn_number" in unparse(n) and ":" in unparse(n):
+            st = n
+            while st is not None and not isinstance(st, ast.stmt):
+                st = pm.get(st)
+            pref.append(st)
+    need(pref, "Connector.__init__: the parent-connector prefix f\"{conn_name}_{conn_number}:...\" was not found")
+    ok = True
+    forms_seen = set()
+    for st in pref:
+        conds = dominating_conditions(pm, st, f)
+        ctext = {(unparse(t), pol) for t, pol in conds}
+        forms = {t for t, pol in ctext if "isinstance(io," in t and pol} | {"not-" + t for t, pol in ctext if "isinstance(io," in t and not pol}
+        forms_seen |= forms or {"any"}
+        ok = ok and any(t in ("conn is not None",) and pol for t, pol in ctext)
+    # either one prefixing site outside the form dispatch, or one per form
+    ok = ok and ("any" in forms_seen or {"isinstance(io, dict)"} <= forms_seen and
+                 any("isinstance(io, str)" in x for x in forms_seen))
+    ctx.check(ok, R, "Connector.__init__:conn-prefix", "every mapped pin gets the parent connector's prefix when conn= is given",
+              f"the `conn=` prefix must be applied to the pins of dictionary-form and string-form connectors alike (found under "
+              f"{sorted(forms_seen)}): without it a stacked connector yields the parent connector's pin number instead of the "
+              f"physical pin, and pin clashes go unnoticed", f"{DSLB}:{f.lineno}")
+
+
+def r19g(model, ctx):
+    """the physical pin names of a resource are computed from the names and the connector mapping given at that call:
+    map_names keeps no state on the object (a memoised result would be handed out for a different mapping)"""
+    R = "R-19g"
+    for cls in ("Pins",):
+        f = model.func(f"{DSLB}::{cls}.map_names")
+        stores = [unparse(t) for st in ast.walk(f) for t in (st.targets if isinstance(st, ast.Assign) else
+                  [st.target] if isinstance(st, (ast.AugAssign, ast.AnnAssign)) else [])
+                  if unparse(t).startswith("self.")]
+        stores += [unparse(c) for c in ast.walk(f) if isinstance(c, ast.Call) and isinstance(c.func, ast.Attribute) and
+                   c.func.attr in ("append", "extend", "update", "setdefault", "add", "__setitem__") and unparse(c.func.value).startswith("self.")]
+        reads = sorted({unparse(a) for a in ast.walk(f) if isinstance(a, ast.Attribute) and unparse(a.value) == "self"} - {"self.names"})
+        ctx.check(not stores and not [r for r in reads if r.startswith("self._")], R, f"{cls}.map_names:pure",
+                  "a function of self.names and the mapping argument only",
+                  f"map_names must compute its result from self.names and the mapping passed in; it stores to {stores} / reads {reads}: "
+                  f"a result remembered on the object is returned for a later call with a different connector mapping",
+                  f"{DSLB}:{f.lineno}")
+
+
+RULES = [("R-19g", r19g), ("R-19f", r19f), ("R-19e", r19e), ("R-19a", r19a), ("R-19b", r19b), ("R-19c", r19c), ("R-19d", r19d)]
